@@ -100,7 +100,7 @@ func (p *c02Prop) afterBlock(b *ibtpBlock, before, after *sim.Dump) {
 				req[op.pair] = op.idx
 				p.acceptedReq[op.pair] = true
 			} else {
-				if op.idx == next {
+				if op.idx == next && !op.poor {
 					s.fail("request %s with the next index %d was rejected: %s", op.id, op.idx, b.receipts[i].Ret)
 				}
 				if op.idx < next {
@@ -290,6 +290,7 @@ func c02Property(t *rapid.T) {
 		},
 		"transfer": func(t *rapid.T) { s.addTransfer() },
 		"call":     func(t *rapid.T) { p.addCall(t) },
+		"poorNext": func(t *rapid.T) { s.poorNext = true; s.logf("the next IBTP is sent by an account without funds") },
 		"ghost": func(t *rapid.T) {
 			// IBTPs nobody can have accepted before: of a service of a registered chain that was never registered itself
 			// (request or receipt, any index), or a request with the next index whose group names more destinations than
